@@ -178,6 +178,12 @@ class DaemonObject(object):
         if streamId not in self.daemon.streaming_responses:
             raise errors.PyroError("item stream terminated")
         client, timestamp, linger_timestamp, stream = self.daemon.streaming_responses[streamId]
+        now = time.time()
+        if 0 < config.ITER_STREAM_LIFETIME < now - timestamp or \
+                (linger_timestamp and 0 < config.ITER_STREAM_LINGER < now - linger_timestamp):
+            # past its lifetime or linger period: it is gone, even if the periodic housekeeping hasn't come by yet
+            self.daemon.streaming_responses.pop(streamId, None)
+            raise errors.PyroError("item stream terminated")
         if client is None:
             # reset client connection association (can be None if proxy disconnected)
             self.daemon.streaming_responses[streamId] = (current_context.client, timestamp, 0, stream)
@@ -185,7 +191,7 @@ class DaemonObject(object):
             return next(stream)
         except Exception:
             # in case of error (or StopIteration!) the stream is removed
-            del self.daemon.streaming_responses[streamId]
+            self.daemon.streaming_responses.pop(streamId, None)     # (it may have been removed by someone else in the meantime)
             raise
 
     def close_stream(self, streamId):
